@@ -346,6 +346,11 @@ def gen_random(rng, index):
     if rng.random() < 0.3:
         hot.append(rng.randint(-9999, 9999))
     nsteps = rng.randint(10, 150)
+    if rng.random() < 0.02:
+        # a marathon: many operations over many distinct years in one process
+        nsteps = rng.randint(400, 900)
+        hot = rng.sample(HOT_YEARS, 20) + [rng.randint(-9999, 9999)
+                                           for _ in range(10)]
     enabled = rng.sample(OP_KINDS, rng.randint(3, len(OP_KINDS)))
     weights = [rng.choice([1, 1, 2, 5]) for _ in enabled]
     p_perturb = rng.choice([0.0, 0.05, 0.1, 0.2, 0.35])
